@@ -135,8 +135,23 @@ class Gen:
                     rec[nm] = {'cat': 'class', 'exception': exc}
                     self.scopes[scope + '.' + nm] = {}
                     prev = nm
-                if self.draw(st.booleans()):
+                redo = self.draw(st.sampled_from(['no', 'same', 'same', 'flipped', 'flipped']))
+                if redo == 'same':
                     out += [indent + 'class %s(%s):' % (names[0], root_base), indent + '    """One line %d."""' % self.uid()]
+                elif redo == 'flipped':
+                    # the root's name is defined again, this time below the other kind of base: the classes derived before keep the
+                    # base they were given (bases are bound when the class statement runs)
+                    other = self.draw(st.sampled_from(['object', 'Plain'])) if exc else self.draw(st.sampled_from(EXC_BASES))
+                    guard = self.draw(st.sampled_from(['', 'if True:', 'with nullcontext():']))
+                    ind2 = indent + ('    ' if guard else '')
+                    if guard:
+                        out.append(indent + guard)
+                    out += [ind2 + 'class %s(%s):' % (names[0], other), ind2 + '    """One line %d."""' % self.uid()]
+                    # (and a class derived from the new definition)
+                    late = 'K%d' % self.uid()
+                    out += [indent + 'class %s(%s):' % (late, names[0]), indent + '    """One line %d."""' % self.uid()]
+                    rec[late] = {'cat': 'class', 'exception': not exc}
+                    self.scopes[scope + '.' + late] = {}
                 self.interesting = True
                 continue
             if kind == 'class':
